@@ -7,7 +7,7 @@ import os
 
 from ..loader import AnalysisError, call_attr, call_name, dotted, unparse
 from ..prototab import ProtoTable, elem_schema, field_names, find_field, sig
-from ..rulekit import arg_of, const_value, def_value, is_none_test, local_defs
+from ..rulekit import arg_of, const_value, def_value, is_none_test, local_defs, holds_at
 from ..symeval import Const, Field, ListV, StructV, SymEval, Tup, Unk, deps_of
 from . import c12
 
@@ -181,9 +181,7 @@ def _select_via_helper(ctx, R, fi, c, builds, chooser):
     loop = [n for n in ast.walk(chooser.node) if isinstance(n, ast.For) and unparse(n.iter) == "reversed(self._CLASSES)"][0]
     lv = unparse(loop.target)
     rets = [r for r in cc.nodes if r.kind == "return" and r.ast.value is not None and not (isinstance(r.ast.value, ast.Constant) and r.ast.value.value is None)]
-    tests = [t for t in cc.nodes if t.kind == "test" and isinstance(t.ast, ast.Compare) and len(t.ast.ops) == 2 and all(isinstance(o, ast.LtE) for o in t.ast.ops)
-             and unparse(t.ast.left) == pmn and unparse(t.ast.comparators[1]) == pmx and unparse(t.ast.comparators[0]) == f"{lv}.API_VERSION"]
-    ok = bool(rets) and all(unparse(r.ast.value) == lv and any(cc.dominated_by_branch(t, "T", r) for t in tests) for r in rets)
+    ok = bool(rets) and all(unparse(r.ast.value) == lv and holds_at(cc, r, pmn, "<=", f"{lv}.API_VERSION") and holds_at(cc, r, f"{lv}.API_VERSION", "<=", pmx) for r in rets)
     ctx.ob(R, chooser, chooser.node, ok, f"{chooser.name}() can hand out a struct class without `{pmn} <= class.API_VERSION <= {pmx}`: a version outside the broker's range would be put in the header", text="in-range:" + lv)
     ctx.ob(R, chooser, chooser.node, all(any(a is loop for a, _r in r.within) for r in rets), "candidates are not scanned highest version first (first match returned from the reversed scan)", text="highest-first:" + lv)
     res = unparse(call.stmt.targets[0]) if isinstance(call.stmt, ast.Assign) else None
@@ -233,9 +231,9 @@ def rule_select(ctx):
     for b in builds:
         a0 = arg_of(b.ast, 0)
         if c.dominates(rng, b):
-            tests = [t for t in c.nodes if t.kind == "test" and isinstance(t.ast, ast.Compare) and len(t.ast.ops) == 2 and all(isinstance(o, ast.LtE) for o in t.ast.ops)
-                     and unparse(t.ast.left) == mn and unparse(t.ast.comparators[1]) == mx and unparse(t.ast.comparators[0]) == f"{unparse(a0)}.API_VERSION"]
-            ok = any(c.dominated_by_branch(t, "T", b) for t in tests)
+            # guard facts that hold on every path to the build (any spelling: chained, two tests, negated skip-guards)
+            ver = f"{unparse(a0)}.API_VERSION"
+            ok = holds_at(c, b, mn, "<=", ver) and holds_at(c, b, ver, "<=", mx)
             ctx.ob(R, fi, b, ok, f"prepare() can build {unparse(a0)} without `{mn} <= {unparse(a0)}.API_VERSION <= {mx}`: a version outside the broker's range would be put in the header", text="in-range:" + unparse(a0))
             la = c.enclosing(b, types=(ast.For,), role="body")
             ok = bool(la) and unparse(la[0][0].iter) == "reversed(self._CLASSES)" and unparse(la[0][0].target) == unparse(a0)
@@ -398,6 +396,93 @@ def _guarded(conds, pn, selfv):
             if text.startswith(f"{t} ") and val is False and any(op in text for op in (" != ", " > ", " >= ")):
                 return True
     return False
+
+
+
+# ---- nested elements built by build(): arity and source of every field, siblings across versions ---------------------------------
+# reviewed sources of the per-partition entry the hot-path builders construct themselves (slot i of the caller's tuple / constant)
+NESTED_SOURCES = {
+    ("FetchRequest", "topics.partitions"): {"partition": "slot0", "fetch_offset": "slot1", "offset": "slot1", "max_bytes": "slot2",
+                                            "log_start_offset": "const(-1)", "current_leader_epoch": "const(-1)"},
+}
+
+
+def _src(v):
+    if isinstance(v, Const):
+        return f"const({v.v!r})"
+    sl = getattr(v, "slot", None)
+    if sl is not None and sl[0] is not None:
+        return f"slot{sl[0]}"
+    if isinstance(v, Field):
+        return v.path
+    return "?"
+
+
+def rule_nested(ctx):
+    R = "builders-nested"
+    ctx.rep.rule(R, "where build() constructs the elements of a nested array itself (tuples appended in a loop), every such tuple has exactly "
+                    "the fields of the nested schema of the selected version, and a field of a given name is fed from the same source "
+                    "(component i of the caller's tuple, or a constant) in every version that has it -- sibling versions must agree -- and, "
+                    "for the reviewed hot-path builders, from the source the table states")
+    pt = _pt(ctx)
+    seen = {}
+    n = 0
+    for b in pt.builders():
+        build = b.methods.get("build")
+        selfv, params = _self_struct(pt, b)
+        pcls = build.args.args[1].arg
+        site = f"{b.module.relpath}:{build.lineno} {b.name}.build"
+        for rc in pt.builder_classes(b):
+            v = pt.const(rc, "API_VERSION")
+            sch = pt.schema(rc)
+            se = SymEval(interest=lambda c, pcls=pcls: c in (pcls, "<raise>", "<return>"))
+            try:
+                paths = se.run_function(build, {"self": selfv, pcls: _ClassV({}, v, rc.name)})
+            except AnalysisError:
+                continue      # reported by the builders rule
+            for p in paths:
+                cons = [e for e in p.events if e.callee == pcls]
+                if p.end == "raise" or not cons:
+                    continue
+                args = list(cons[-1].args)
+                if len(args) != len(sch[1]):
+                    continue
+
+                def walk(val, t, path):
+                    nonlocal n
+                    if t[0] == "array" and t[1][0] == "schema" and isinstance(val, ListV):
+                        fields = t[1][1]
+                        for it in val.items:
+                            if not isinstance(it, Tup):
+                                continue
+                            n += 1
+                            ok = len(it.items) == len(fields)
+                            ctx.rep.ob(R, site, f"{b.name}|v{v}|{path}|arity", ok, f"{b.name} v{v}: an element of `{path}` is built with {len(it.items)} components, "
+                                                                                   f"the schema has {[f for f, _ in fields]}")
+                            if not ok:
+                                continue
+                            for (fname, ft), x in zip(fields, it.items):
+                                if ft[0] == "array":
+                                    walk(x, ft, f"{path}.{fname}")
+                                    continue
+                                src = _src(x)
+                                seen.setdefault((b.name, path, fname), {}).setdefault(src, []).append(v)
+                                want = NESTED_SOURCES.get((b.name, path), {}).get(fname)
+                                if want is not None:
+                                    ctx.rep.ob(R, site, f"{b.name}|v{v}|{path}.{fname}|source", src == want,
+                                               f"{b.name} v{v}: field `{fname}` of `{path}` is fed from {src}, reviewed source is {want} "
+                                               "(the bytes would not follow the layout for the given builder parameters)")
+                for (fname, ft), a in zip(sch[1], args):
+                    walk(a, ft, fname)
+    for (bn, path, fname), srcs in sorted(seen.items()):
+        ok = len(srcs) == 1
+        bb = [x for x in pt.builders() if x.name == bn][0]
+        ctx.rep.ob(R, f"{bb.module.relpath}:{bb.methods['build'].lineno} {bn}.build", f"{bn}|{path}.{fname}|siblings", ok,
+                   f"{bn}: field `{fname}` of `{path}` is fed from different sources in different versions: { {k: sorted(set(vs)) for k, vs in srcs.items()} }")
+    for key in NESTED_SOURCES:
+        if not any(k[0] == key[0] and k[1] == key[1] for k in seen):
+            raise AnalysisError(f"builders-nested: no nested construction found for {key} (anchor lost)")
+    ctx.rep.extra["nested_elements_checked"] = n
 
 
 def rule_evolution(ctx):
@@ -605,6 +690,7 @@ def run(ctx):
     rule_pairing(ctx)
     rule_select(ctx)
     rule_builders(ctx)
+    rule_nested(ctx)
     rule_evolution(ctx)
     rule_layout(ctx)
     rule_codec_symmetry(ctx)
